@@ -37,7 +37,7 @@ def group_class(r):
 
 PROP = {
         "level": "proof",
-        "gens": [],
+        "gens": ["GroupFacts"],
         "theorems": [
             "Frp.C13.cmp_none_iff", "Frp.C13.join_ok_iff", "Frp.C13.join_refused_unchanged",
             "Frp.C13.join_ok_effect",
@@ -59,6 +59,14 @@ PROP = {
             "Frp.C13.buffered_stranded_witness",
             "Frp.Group.ainv_step", "Frp.Group.ainv_run", "Frp.C13.repaired_ainv",
             "Frp.C13.repaired_none_lost", "Frp.C13.repaired_delivered_once",
+            "Frp.Group.inv_leaveEdit", "Frp.Group.inv_leaveDel",
+            "Frp.C13.repaired_sections_exclusive", "Frp.C13.repaired_table_members_consistent",
+            "Frp.C13.repaired_second_section_finds_entry", "Frp.C13.leaveL_eq_sections", "Frp.C13.leaveG_eq_sections",
+            "Frp.C13.split_leave_witness_http", "Frp.C13.split_leave_witness_tcp",
+            "Frp.C13.code_join_one_section", "Frp.C13.code_leave_one_section", "Frp.C13.code_lock_order",
+            "Frp.C13.code_release_real_port", "Frp.C13.code_gates",
+            "Frp.C13.step_leaked", "Frp.C13.repaired_no_leak", "Frp.C13.repaired_used_iff_populated",
+            "Frp.C13.usedHolds_sound",
         ],
         "engines": [
             {"name": "group", "quick_n": 6000, "thorough_n": 20000, "thorough_seeds": 5,
@@ -66,8 +74,16 @@ PROP = {
         ],
         "rule": "group engine: generated join/leave/connection/squat histories on the real TCPGroupCtl "
                 "(real ports.Manager + sockets), HTTPGroupController (real vhost.Routers) and TCPMuxGroupCtl "
-                "(real HTTP-CONNECT muxer), plus gated lookup/enter schedules run in a sacrificial child "
-                "process; user connections whose ARRIVAL IS DECOUPLED FROM PICK-UP (tcp, tcpmux): members that "
+                "(real HTTP-CONNECT muxer), plus schedules run in a sacrificial child process in which BOTH the join "
+                "(lookup | group section, parked at the `*group*.lookedup` gates) and the leave (table lookup | group "
+                "edit | table delete: asynchronous leaves, paused by holding the group object's own lock) are "
+                "scheduled in sections, join x leave overlaps in both orders, one / some / all members leaving, "
+                "each followed by a probe (correct join, connection, ports / routes held, everybody leaves, "
+                "ports / routes again, re-creation); an op whose thread can never finish (every thread blocked "
+                "on a mutex, or no progress for 2 s, with no hold and no gate left) is `wedged` = the property "
+                "fails (waits are event-driven: goroutine states); tcp groups with server-chosen port: after "
+                "the group dissolved the port manager's used set must not keep the real port and the real port "
+                "is acquired again explicitly (`@m`); user connections whose ARRIVAL IS DECOUPLED FROM PICK-UP (tcp, tcpmux): members that "
                 "joined but are not yet inside Accept (held, later resumed), connections dialled and kept "
                 "open, joins/leaves/resumes/further arrivals in random order, every kept connection followed "
                 "to its end (delivered to whom / closed by frps / still open 2 s after it had to be taken or "
@@ -77,6 +93,10 @@ PROP = {
         "trusted": COMMON_TRUST + [
             "model Frp/Model/Group.lean written by hand from server/group/{tcp,http,tcpmux}.go; tied by the group engine",
             "verifhook gates tcpgroup/httpgroup/tcpmuxgroup *.lookedup (hooks/C13.patch) perturb timing only",
+            "the harness reaches ctl.groups[g].mu by reflection and holds it (op `hold`): perturbs timing only; "
+            "'blocked on a mutex' is read from runtime.Stack goroutine states",
+            "translate/gen_groupfacts.go (go/ast): statement-order walk of the six join/leave entry functions with "
+            "package-local calls inlined; branches that return do not flow out, intersection after other branches",
         ],
         "assumptions": [
             "each proxy closes its group listener once (BaseProxy.Close); member names are unique while live (proxy.Manager)",
@@ -86,6 +106,8 @@ PROP = {
             "a held member = a proxy whose goroutine has not reached TCPGroupListener.Accept yet (the scheduler may delay it arbitrarily); the harness realises it by starting the member's accept loop only at `resume`",
             "tcp: the connection in the worker's hands and those still in the kernel backlog of the group's listener are one set in the model (`inflight`); both are closed when the last member leaves (send on the closed channel / listener close)",
             "tcpmux: one kept connection at a time — further ones wait inside vhost.Muxer.handle, not in the group; Muxer.handle's recovered send on a closed listener leaves such a connection open (DESIGN §7/10, open on this tree, C11's), which is not driven here",
+            "a connection arriving while a member's leave is under way (listener closed, still listed) is not driven",
+            "the split leave of the witness model keeps the identity test `ctl.groups[name] == g` (the careful form)",
             "'stuck' for a kept connection is decided by time: the harness's own books say it must be delivered or closed and it is still open after 2 s",
         ],
     }
@@ -94,6 +116,6 @@ META = {
         "engine": "lean+harness(group)",
         "design_ref": "DESIGN.md §6 C13, Appendix A.3",
         "technique": "Lean 4 small-step model of the three two-lock group controllers; invariants over all interleavings for the repaired model, witness schedules for the pinned one; differential correspondence with the real controllers incl. gated schedules in a sacrificial child process",
-        "text": "Proof (model level) + correspondence. For every state, a join meeting a populated group is accepted iff it presents the group's name, key and all compared endpoint parameters (http: and is not yet a member); a refused join changes nothing; http requests rotate index mod n and reach every member within n requests. For the repaired controllers (lookup+join and leave under the controller lock, listen on the acquired port, close on failed hand-off) invariants hold under ALL interleavings: no double close (no panic), endpoint open iff members, every populated group is the one stored under its name, reported port = listening port, no leaked port, no connection left in limbo, immediate re-creation after the last leave. User connections, with arrival decoupled from pick-up: because the hand-off channel is unbuffered, under ALL interleavings every connection that reached a group's listener is in exactly one place — waiting with the worker, received by exactly one member, or closed by frps; none is ever stranded (open in nobody's hands, or buffered in the channel of a group without members); while a member is live the worker keeps a waiting connection; those still waiting when the last member has left are closed. A kernel-checked witness shows that the same controllers with any channel capacity > 0 strand the connections buffered at the last leave while everything else (delivery, re-creation) still works. For the pinned tree the same statements are refuted by kernel-checked witness schedules which the harness reproduces on the real code (frps dies).",
+        "text": "Proof (model level) + correspondence. For every state, a join meeting a populated group is accepted iff it presents the group's name, key and all compared endpoint parameters (http: and is not yet a member); a refused join changes nothing; http requests rotate index mod n and reach every member within n requests. For the repaired controllers (lookup+join and leave under the controller lock, listen on the acquired port, close on failed hand-off) invariants hold under ALL interleavings: no double close (no panic), endpoint open iff members, every populated group is the one stored under its name, reported port = listening port, no leaked port, no connection left in limbo, immediate re-creation after the last leave. The leave's two sections (group edit | table delete) are labels of their own in every one of these statements: the source keeps the controller lock across both (facts regenerated from server/group/*.go by the translator: join = one critical section, leave = one critical section, lock order controller -> group, edits under the group lock, the tcp group releases realPort), so between the sections nothing of another join or leave is enabled, table <-> members stay consistent (a populated object is the table's entry for its name; a table entry is usable unless its last leaver holds the controller lock and is about to delete it), and the big-step leave equals its sections run back to back; a kernel-checked witness shows that the same controllers with a leave that gives the lock up between its sections (even with an identity test) lose a live http group (later correct joins refused, route never removed) and crash frps for tcp/tcpmux. A port is accounted as used exactly as long as a populated group listens on it (no leak under any interleaving). User connections, with arrival decoupled from pick-up: because the hand-off channel is unbuffered, under ALL interleavings every connection that reached a group's listener is in exactly one place — waiting with the worker, received by exactly one member, or closed by frps; none is ever stranded (open in nobody's hands, or buffered in the channel of a group without members); while a member is live the worker keeps a waiting connection; those still waiting when the last member has left are closed. A kernel-checked witness shows that the same controllers with any channel capacity > 0 strand the connections buffered at the last leave while everything else (delivery, re-creation) still works. For the pinned tree the same statements are refuted by kernel-checked witness schedules which the harness reproduces on the real code (frps dies).",
         "note": "Trusted: Lean kernel; hand-written model; harness generators. KNOWN findings: C13-tcp-group-port0-listen, C13-group-revived-after-last-leave, C13-http-group-leaked-route.",
     }
